@@ -333,3 +333,26 @@ func Scenarios() []Case {
 	}
 	return out
 }
+
+// RaceRun executes one scenario without a bubble; false if it does not end within 30 s.
+func RaceRun(c Case, fn func(c Case, file []byte, report func(error))) bool {
+	c.Apply()
+	file := File(c)
+	srv := mredis.New(mredis.Options{Registry: registry})
+	hook.SetExitHook(func(int) {})
+	defer hook.SetExitHook(nil)
+	hook.SetDialHook(func(network, addr string) (net.Conn, error, bool) {
+		cc, sc := memconn.Pair("target")
+		go srv.Serve(sc)
+		return cc, nil, true
+	})
+	defer hook.SetDialHook(nil)
+	done := make(chan struct{})
+	go fn(c, file, func(error) { close(done) })
+	select {
+	case <-done:
+		return true
+	case <-time.After(30 * time.Second):
+		return false
+	}
+}
